@@ -391,9 +391,9 @@ def finish (env : Env) (s : St) : Except Code JV :=
   | .num n =>
     match n.phase with
     | .afterMinus | .fracStart | .expStart | .expSign =>
-      -- `ignore_integer`/`ignore_decimal`/`ignore_exponent` read a NUL at end of input and
-      -- report InvalidNumber; the value parser reports EofWhileParsingValue
-      .error (if env.tgt = .value then .EofWhileParsingValue else .InvalidNumber)
+      -- `parse_integer`/`parse_decimal`/`parse_exponent` and (since the fix recorded in
+      -- known_findings.json) `ignore_integer`/`ignore_decimal`/`ignore_exponent`
+      .error .EofWhileParsingValue
     | _ =>
       match endNumber env s n with
       | .ok s' => finishMode env s'
